@@ -16,6 +16,12 @@ CHECKS = {
             "patterns x rows, through all five text compilers, and on every rule line of every shipped rule file (rows synthesised from the line "
             "plus near-miss mutations); match result and extracted key must equal the reference semantics. Held = agreed on all observed pairs.",
             "Trusted: vf/ref/rulelang.py (R1) and vf/ref/deploy.py (R7). Shipped-line regex fragments are instantiated by an sre_parse sampler; unsampled lines are counted.", "4/C07"),
+    "C18": ("invariant monitors on hardware/vendor/rulebook resolution over the whole device database (exhaustive), registration-order permutation, fresh-process differential",
+            "For every one of the 168 device-database entries (model strings synthesised from the regex chain) and every vendor's canonical hardware, "
+            "the run observes the hardware attribute hierarchy, the vendor chosen by fresh Registry objects under every rotation and the reversal of the "
+            "registration order, the loading of the patching/ordering/deploy rulebooks, and structural equality of rulebooks from fresh providers and a "
+            "fresh process with another hash seed. Exhaustive over the finite database; held = all observations consistent.",
+            "Trusted: sre_parse-based model synthesiser (each synthesised string is re-checked against the regex chain); the expected vendor is derived from the vendors' own match() expressions.", "4/C18"),
 }
 
 NOT_BUILT = "check not built yet in this round (runtime-monitoring design exists in DESIGN.md section 4)"
